@@ -140,6 +140,17 @@ def rule_pipeline_props(chk):
                 return
             if isinstance(r, I.Enum) and r.variant == "Ok":
                 n_ok += 1
+    # an entry point that is declared but never defined (`void cs(); Pipeline P { ComputeShader = cs; }`)
+    import c05
+    res = c05.stage_declared_only(f)
+    if res:
+        unread = [v for v in res.values() if isinstance(v, tuple) and v[0] == "unreadable"]
+        if unread:
+            chk.note("C08.pipeline/entry-without-body: add_stage is not readable (%s); not decided" % unread[0][1])
+        else:
+            ab = {k: v for k, v in res.items() if isinstance(v, tuple) and v[0] == "aborts"}
+            chk.ob("C08.pipeline/entry-without-body", not ab, "a stage naming a function without a body is refused or accepted, never an abort" if not ab else
+                   "a pipeline stage (%s) that names a function which is declared but never defined aborts the type checker (%s)" % (sorted(ab)[0], sorted(ab.values())[0][1]), where(f.fn("add_stage", "rssl_typer")))
     chk.ob("C08.pipeline/properties", bad is None, "%d pipeline definitions (%d accepted): every property list yields a pipeline or an error value" % (n, n_ok) if bad is None else bad,
            where(pp), sample={"definitions": n, "accepted": n_ok})
     chk.floor("C08.floor/pipeline-definitions", n_ok, 20, "accepted model pipeline definitions", where(pp))
